@@ -47,6 +47,18 @@ def has_field(cls: str, field: str) -> bool:
         return False
 
 
+def flatten_and(g):
+    """Split a goal into its top-level conjuncts (also under a leading implication: A => (B and C))."""
+    if z3.is_and(g):
+        out = []
+        for c in g.children():
+            out.extend(flatten_and(c))
+        return out
+    if z3.is_implies(g) and z3.is_and(g.arg(1)):
+        return [z3.Implies(g.arg(0), c) for c in flatten_and(g.arg(1))]
+    return [g]
+
+
 class ExcInfo:
     def __init__(self, cls, or_subclass=False, value=None, line=0):
         self.cls = cls
@@ -97,9 +109,16 @@ class Executor:
         if self.in_spec and kind in ("bounds", "nonnull"):
             return  # contract / spec text is not executable code: no run-time error obligations
         bits = "".join(x[-1] for x in st.trace)
-        name = f"{self.prop}/{self.fkey.replace(':', '.')}/{kind}[{tag}]/p{bits}/L{self.cur_line}#{len(self.obligations)}"
-        self.obligations.append(Obligation(name=name, hyps=list(st.pc), goal=goal, kind=kind, func=self.fkey,
-                                           line=self.cur_line, note=note))
+        parts = [goal]
+        if kind in ("post", "inv-preserve", "inv-entry", "lemma", "raises-post"):
+            parts = flatten_and(goal)
+        for k, g in enumerate(parts):
+            if z3.is_true(g):
+                continue
+            t = tag if len(parts) == 1 else f"{tag}.{k + 1}"
+            name = f"{self.prop}/{self.fkey.replace(':', '.')}/{kind}[{t}]/p{bits}/L{self.cur_line}#{len(self.obligations)}"
+            self.obligations.append(Obligation(name=name, hyps=list(st.pc), goal=g, kind=kind, func=self.fkey,
+                                               line=self.cur_line, note=note))
 
     def feasible(self, st: State) -> bool:
         self.feas.push()
@@ -627,6 +646,14 @@ class Executor:
                         raise Unsupported("sum over tuple")
                     return V(BOOL, (z3.And if which is all else z3.Or)(*outs) if outs else z3.BoolVal(which is all))
                 enum_idx = None
+                if isinstance(src, V) and isinstance(src.ty, TSet):
+                    x = z3.Const(T.fresh_name("qs"), src.ty.elem.sort())
+                    qvars.append(x)
+                    guards.append(z3.Select(src.z, x))
+                    self.bind_target(st2, gen.target, V(src.ty.elem, x))
+                    for c in gen.ifs:
+                        guards.append(truthy(self.eval(st2, c)))
+                    continue
                 if isinstance(src, PyObj) and isinstance(src.o, tuple) and src.o[0] == "enumerate":
                     enum_idx, src = True, src.o[1]
                 if not (isinstance(src, V) and isinstance(src.ty, TList)):
@@ -813,6 +840,13 @@ class Executor:
                                           z3.And(0 <= perm(i), perm(i) < n, z3.Select(seq_arr(r), i) == z3.Select(seq_arr(xs), perm(i)),
                                                  pinv(perm(i)) == i))))
         st.assume(forall([i], z3.Implies(z3.And(0 <= i, i < n), z3.And(0 <= pinv(i), pinv(i) < n, perm(pinv(i)) == i))))
+        # consequence of the two above, stated with a trigger on xs[j] so that "every input element occurs
+        # in the output" is found by E-matching
+        if ops.MODE["bounded"] is None:
+            st.assume(z3.ForAll([j], z3.Implies(z3.And(0 <= j, j < n),
+                                                z3.And(0 <= pinv(j), pinv(j) < n,
+                                                       z3.Select(seq_arr(r), pinv(j)) == z3.Select(seq_arr(xs), j))),
+                                patterns=[z3.Select(seq_arr(xs), j)]))
         le = self.order(ast.LtE(), kf(el(r, i)), kf(el(r, j)))
         st.assume(forall([i, j], z3.Implies(z3.And(0 <= i, i < j, j < n), le)))
         keq = val_eq(kf(el(r, i)), kf(el(r, j)))
@@ -859,6 +893,13 @@ class Executor:
         node, params = contract_ast(fn)
         if isinstance(sp, Spec) and sp.recursive:
             return self.apply_rec_spec(st, sp, args)
+        if isinstance(sp, Spec) and sp.uninterpreted:
+            ann = fn.__annotations__
+            ptys = [ann[p] for p in params]
+            rty = ann["return"]
+            if sp.name not in self.rec_decls:
+                self.rec_decls[sp.name] = z3.Function("uf_" + sp.name, *[t.sort() for t in ptys], rty.sort())
+            return V(rty, self.rec_decls[sp.name](*[coerce(a, t).z for a, t in zip(args, ptys)]))
         env = {}
         ann = fn.__annotations__
         for p, a in zip(params, args):
